@@ -86,8 +86,8 @@ def check_trace(out: Outcome, cls: str, p: dict, ops: list[tuple], const_value=N
         if const_value is not None and cls != "BOCD" and (drift or warning):
             kf = in_finding_domain(out, cls, p, const_value)
             if kf and kf in out.findings:
-                out.findings[kf].hits += 1
-                out.known.append(rep)
+                # attributed to the finding only if the faithful model predicts the same alarm (decided after the model run)
+                out.kf_candidates.append((r, len(r.obs) - 1, kf, f"{label}{cls}: alarm on a constant stream (value {const_value!r})", rep))
             else:
                 out.violation(f"{label}{cls}: alarm on a constant stream (value {const_value!r})", rep)
             break
@@ -118,6 +118,7 @@ def run(out: Outcome) -> None:
     out.rule = ("per detector class: random accepted configurations x piecewise-stationary streams with resets, warm-up "
                 "boundary traces, constant streams for a grid of values; non-trivial = a flag was raised or a reset occurred")
     runners = []
+    out.kf_candidates = []
     for e in corpus(out):
         r = check_trace(out, e["class"], e["params"], [tuple(o) for o in e["ops"]], e.get("const"), label="corpus:")
         if r:
@@ -181,8 +182,10 @@ def run(out: Outcome) -> None:
                 runners.append(r)
         # constant streams (with resets)
         for c in const_values(cls):
-            for _ in range(3 if thorough else 1):
+            for rep_i in range((3 if thorough else 1) * (2 if cls in dets.UNIT_INTERVAL else 1)):
                 p = gen.rand_params(rng, cls)
+                if cls in dets.UNIT_INTERVAL:
+                    p = {**dets.full_params(cls, p), "two_sided_test": rep_i % 2 == 0}
                 n = rng.randint(20, length)
                 ops = gen.with_resets(rng, [c] * n, p_reset=rng.choice([0.0, 0.03]))
                 r = check_trace(out, cls, p, ops, const_value=c)
@@ -190,15 +193,27 @@ def run(out: Outcome) -> None:
                     runners.append(r)
     # reproduce the listed findings' witnesses on the implementation (KNOWN-FINDING lines)
     if "KF-C01-1" in out.findings:
-        check_trace(out, "HDDMW", {"alpha_d": 0.3, "alpha_w": 0.6, "lambda_": 0.05, "min_num_instances": 30}, [("u", 1)] * 120, const_value=1)
+        runners.append(check_trace(out, "HDDMW", {"alpha_d": 0.3, "alpha_w": 0.6, "lambda_": 0.05, "min_num_instances": 30}, [("u", 1)] * 120, const_value=1))
     if "KF-C01-2" in out.findings:
-        check_trace(out, "KSWIN", {"alpha": 1.0, "min_num_instances": 10, "num_test_instances": 3}, [("u", 0.5)] * 15, const_value=0.5)
-        check_trace(out, "EDDM", {"alpha": 1.5, "beta": 1.2, "min_num_misclassified_instances": 3}, [("u", 1)] * 10, const_value=1)
-        check_trace(out, "STEPD", {"alpha_d": 0.5, "alpha_w": 1.5, "min_num_instances": 3}, [("u", 1)] * 10, const_value=1)
+        runners.append(check_trace(out, "KSWIN", {"alpha": 1.0, "min_num_instances": 10, "num_test_instances": 3}, [("u", 0.5)] * 15, const_value=0.5))
+        runners.append(check_trace(out, "EDDM", {"alpha": 1.5, "beta": 1.2, "min_num_misclassified_instances": 3}, [("u", 1)] * 10, const_value=1))
+        runners.append(check_trace(out, "STEPD", {"alpha_d": 0.5, "alpha_w": 1.5, "min_num_instances": 3}, [("u", 1)] * 10, const_value=1))
+    settle(out, runners)
+
+
+def settle(out: Outcome, runners: list) -> None:
     corr.compare_batch(out, runners)
+    for r, k, kf, what, rep in out.kf_candidates:
+        mm = getattr(r, "mismatch_at", None)
+        if mm is None or mm > k:       # the faithful model does not contradict the implementation up to the alarming step (ties are undecided)
+            out.findings[kf].hits += 1
+            out.known.append(rep)
+        else:
+            out.violation(what + " (not the behaviour recorded as " + kf + ": the faithful model does not alarm there)", rep)
 
 
 def replay(out: Outcome, payload: dict) -> None:
+    out.kf_candidates = []
     r = check_trace(out, payload["class"], payload["params"], [tuple(o) for o in payload["ops"]], payload.get("const"))
     if r:
-        corr.compare_batch(out, [r])
+        settle(out, [r])
